@@ -1158,7 +1158,12 @@ class Interp:
         return ""
 
     def ev_Lambda(self, e, frame):
-        raise Unsupported("lambda")
+        # lambda args: expr  ==  def <lambda>(args): return expr, closed over the enclosing frame (like a nested def)
+        fd = ast.FunctionDef(name="<lambda>", args=e.args, body=[ast.Return(value=e.body)], decorator_list=[], returns=None, type_comment=None)
+        ast.copy_location(fd, e)
+        ast.fix_missing_locations(fd)
+        from .source import FuncInfo
+        return FuncRef(FuncInfo(fd, frame.module, None), closure=frame)
 
     def ev_IfExp(self, e, frame):
         if self.truth(self.eval(e.test, frame)):
@@ -1498,6 +1503,12 @@ class Interp:
         return self.index_value(cont, idx)
 
     def index_value(self, cont, idx):
+        if isinstance(cont, LibRef) and cont.path in ("numpy.r_", "numpy.lib.index_tricks.r_"):
+            # np.r_[a, b, ...] with array / scalar parts (no slice or string directives): concatenation along the first axis
+            parts = list(idx) if isinstance(idx, tuple) and not (idx and idx[0] == "slice") else [idx]
+            if any(isinstance(q, str) or (isinstance(q, tuple) and q and q[0] == "slice") for q in parts):
+                raise Unsupported("np.r_ with slice or string directives")
+            return self.call_lib("numpy.concatenate", [[q if isinstance(q, (Arr, list)) else Arr.from_items([q]) for q in parts]], {})
         if isinstance(cont, GlobalsView):
             mod = cont.module
             if isinstance(idx, str) and (idx in mod.functions or idx in mod.classes or idx in mod.global_nodes or idx in mod.imports):
